@@ -33,13 +33,12 @@ use std::task::{Context, Poll};
 
 pub const META: Meta = Meta {
     level: "model_checking",
-    rule: "BFS over all histories of {add_address, remove_address, NewExternalAddrOfPeer, ConnectionEstablished(dialer|listener, endpoint addr, failed set), DialFailure(peer|none; Transport(set) | WrongPeerId(obtained, addr) | Aborted)} over 3 peers x 3 addresses on the real MemoryStore (record_capacity 2, peer_capacity 2, remove_addr_on_dial_error on); states deduplicated on (store contents in iteration order, reference permanent set, the store's private permanent flags via hook). Non-trivial = states in which at least one explicitly added address is stored.",
+    rule: "BFS over all histories of {add_address, remove_address, NewExternalAddrOfPeer, ConnectionEstablished(dialer|listener, endpoint addr, failed set), DialFailure(peer|none; Transport(set) | WrongPeerId(obtained, addr) | Aborted), insert_custom_data(peer), take_custom_data(peer)} over 3 peers x 3 addresses on the real MemoryStore (record_capacity 2 with peer_capacity 2 and with peer_capacity 3, remove_addr_on_dial_error on, custom data type u8); states deduplicated on (store contents in iteration order, reference permanent set, the store's private permanent flags via hook). Non-trivial = states in which at least one explicitly added address is stored.",
     explanation: "Every step's drained events are replayed against the previous contents and compared with the store's new contents; silent losses are accepted only as capacity evictions; explicit addresses must survive the automatic paths; size bounds checked in every state. Two passes: strict, and one tolerating a store that is one peer over capacity (so that this defect, if present, cannot hide others); un-deduplicated DFS companion to a smaller depth.",
-    assumptions: &["3 peers / 3 addresses / capacities 2 and 2 (small-scope hypothesis)", "custom data unused (T = ())", "whether a capacity eviction emits PeerAddressRemoved is left open by the statement"],
+    assumptions: &["3 peers / 3 addresses / capacities 2/2 and 2/3 (small-scope hypothesis)", "whether a capacity eviction emits PeerAddressRemoved is left open by the statement"],
 };
 
 const RCAP: usize = 2;
-const PCAP: usize = 2;
 
 #[derive(Clone, Debug, Serialize, Deserialize, PartialEq)]
 pub enum Act {
@@ -53,6 +52,10 @@ pub enum Act {
     /// expected peer, obtained peer, address
     FailWrongPeer(u8, u8, u8),
     FailAborted(u8),
+    /// insert_custom_data(peer) — also as the first action that touches a peer
+    InsertData(u8),
+    /// take_custom_data(peer)
+    TakeData(u8),
 }
 
 fn a(i: u8) -> Multiaddr {
@@ -74,7 +77,13 @@ fn mask_addrs(m: u8) -> Vec<Multiaddr> {
 type Contents = Vec<(u8, Vec<u8>)>; // store iteration order: (peer, addresses most-recent first)
 
 pub struct Sys {
-    store: MemoryStore<()>,
+    store: MemoryStore<u8>,
+    /// which of the store's two record constructors created the peer's current record (true =
+    /// insert_custom_data, false = an address path); part of the canonical key because the record's
+    /// own capacity is private state fixed at construction
+    by_data: BTreeMap<u8, bool>,
+    /// peer_capacity of this configuration (record_capacity is RCAP = 2 in both)
+    pcap: usize,
     /// tolerate peers == PCAP + 1 (second pass)
     tolerant: bool,
     /// previous contents (as observed after the last step)
@@ -87,12 +96,14 @@ pub struct Sys {
 }
 
 impl Sys {
-    pub fn new(tolerant: bool) -> Self {
+    pub fn new(tolerant: bool, pcap: usize) -> Self {
+        #[allow(non_snake_case)]
+        let PCAP = pcap;
         let cfg = Config::default()
             .set_record_capacity(NonZeroUsize::new(RCAP).unwrap())
             .set_peer_capacity(NonZeroUsize::new(PCAP).unwrap())
             .set_remove_addr_on_dial_error(true);
-        Sys { store: MemoryStore::new(cfg), tolerant, prev: Vec::new(), perm: BTreeSet::new(), auto_removals: 0, perm_survived: 0, evictions: 0 }
+        Sys { store: MemoryStore::new(cfg), by_data: BTreeMap::new(), pcap, tolerant, prev: Vec::new(), perm: BTreeSet::new(), auto_removals: 0, perm_survived: 0, evictions: 0 }
     }
     fn contents(&self) -> Contents {
         self.store.record_iter().map(|(pid, r)| (pidx(pid), r.addresses().map(aidx).collect())).collect()
@@ -144,13 +155,18 @@ impl System for Sys {
                 }
             }
             v.push(Act::FailAborted(pi));
+            v.push(Act::InsertData(pi));
+            v.push(Act::TakeData(pi));
         }
         v
     }
 
     fn step(&mut self, act: &Act) -> Result<(), String> {
+        #[allow(non_snake_case)]
+        let PCAP = self.pcap;
         let before: BTreeMap<u8, BTreeSet<u8>> = self.prev.iter().map(|(pi, l)| (*pi, l.iter().copied().collect())).collect();
         let explicit = matches!(act, Act::Add(..) | Act::Remove(..));
+        let had_data: Vec<bool> = (0..3u8).map(|i| self.store.get_custom_data(&p(i)).is_some()).collect();
         let mut ret: Option<bool> = None;
         match act {
             Act::Add(pi, ai) => ret = Some(self.store.add_address(&p(*pi), &a(*ai))),
@@ -182,6 +198,13 @@ impl System for Sys {
             Act::FailWrongPeer(pi, q, ai) => {
                 let err = DialError::WrongPeerId { obtained: p(*q), address: a(*ai) };
                 self.store.on_swarm_event(&FromSwarm::DialFailure(DialFailure { peer_id: Some(p(*pi)), error: &err, connection_id: ConnectionId::new_unchecked(3) }));
+            }
+            Act::InsertData(pi) => self.store.insert_custom_data(&p(*pi), 7u8),
+            Act::TakeData(pi) => {
+                let got = self.store.take_custom_data(&p(*pi));
+                if got.is_some() != had_data[*pi as usize] {
+                    return Err(format!("take-custom-data-result :: {act:?} returned {got:?}, data present before: {}", had_data[*pi as usize]));
+                }
             }
             Act::FailAborted(pi) => {
                 let err = DialError::Aborted;
@@ -250,7 +273,12 @@ impl System for Sys {
             }
         }
         // silent losses: only capacity evictions
-        let peers_over = before.len().max(cur.len()).saturating_sub(PCAP);
+        // every peer that held a record before, gained one through an event, or holds one now (records that
+        // carry only custom data count as records): that many records competed for PCAP places
+        let mut holders: BTreeSet<u8> = before.keys().copied().collect();
+        holders.extend(cur.keys().copied());
+        holders.extend(after.keys().copied());
+        let peers_over = holders.len().saturating_sub(PCAP);
         for (pi, s) in &cur {
             let now = after.get(pi).cloned().unwrap_or_default();
             let lost: Vec<u8> = s.difference(&now).copied().collect();
@@ -313,11 +341,22 @@ impl System for Sys {
             self.perm.insert((*pi, *ai));
         }
         self.perm.retain(|(pi, ai)| after.get(pi).map(|s| s.contains(ai)).unwrap_or(false));
+        // record provenance: a record that exists now and did not exist before this step was constructed by this action
+        // (a record evicted and re-created within one step also counts as new: its old addresses are gone)
+        self.by_data.retain(|pi, _| after.contains_key(pi));
+        for pi in after.keys() {
+            let recreated = before.get(pi).map(|old| !old.is_empty() && old.iter().all(|x| !after[pi].contains(x)) && matches!(act, Act::InsertData(q) if q == pi)).unwrap_or(false);
+            if !before.contains_key(pi) || recreated {
+                self.by_data.insert(*pi, matches!(act, Act::InsertData(_)));
+            }
+        }
         self.prev = after_list;
         Ok(())
     }
 
     fn invariant(&self) -> Result<(), String> {
+        #[allow(non_snake_case)]
+        let PCAP = self.pcap;
         for (pi, l) in &self.prev {
             if l.len() > RCAP {
                 return Err(format!("record-capacity-exceeded :: peer {pi} holds {} addresses (capacity {RCAP}): {:?}", l.len(), self.prev));
@@ -337,7 +376,8 @@ impl System for Sys {
         // permanent flags (hook): without them a state in which a flag was silently changed
         // would be merged with its unchanged twin and never be extended
         let flags: Vec<(u8, Vec<(u8, bool)>)> = self.store.record_iter().map(|(pid, r)| (pidx(pid), r.verif_flags().iter().map(|(a, f)| (aidx(a), *f)).collect())).collect();
-        format!("{:?}|{:?}|{:?}", self.prev, self.perm, flags).into_bytes()
+        let data: Vec<bool> = (0..3u8).map(|i| self.store.get_custom_data(&p(i)).is_some()).collect();
+        format!("{:?}|{:?}|{:?}|{:?}|{:?}", self.prev, self.perm, flags, data, self.by_data).into_bytes()
     }
     fn nontrivial(&self) -> bool {
         !self.perm.is_empty()
@@ -349,40 +389,49 @@ pub fn run(ctx: &Ctx) -> Outcome {
     if let Some(case) = &ctx.replay {
         out.evaluations = 1;
         let tolerant = case["cfg"]["tolerant"].as_bool().unwrap_or(false);
-        if let Err(m) = bfs::replay_history(Sys::new(tolerant), case) {
+        let pcap = case["cfg"]["pcap"].as_u64().unwrap_or(2) as usize;
+        if let Err(m) = bfs::replay_history(Sys::new(tolerant, pcap), case) {
             out.violation(bfs::signature_of(&m), m, case.clone());
         }
         return out;
     }
-    let depth = ctx.tier.pick(4, 7);
-    for tolerant in [false, true] {
-        let cfg = json!({"caps": "record 2 / peer 2", "tolerant": tolerant});
-        let (st, v) = bfs::bfs_replay(|| Sys::new(tolerant), depth, 4_000_000);
+    let depth = ctx.tier.pick(4, 6);
+    // configurations: peer_capacity 2 (= record_capacity; peers get evicted) strict and tolerant, and
+    // peer_capacity 3 (> record_capacity: a record sized with the wrong capacity shows)
+    // (the tolerant pass only differs from the strict one while the peer-capacity defect is present; thorough tier only)
+    let passes: &[(bool, usize)] = if ctx.quick() { &[(false, 2), (false, 3)] } else { &[(false, 2), (true, 2), (false, 3)] };
+    for &(tolerant, pcap) in passes {
+        let cfg = json!({"caps": format!("record 2 / peer {pcap}"), "tolerant": tolerant, "pcap": pcap});
+        let (st, v) = bfs::bfs_replay(|| Sys::new(tolerant, pcap), depth, 4_000_000);
         bfs::record(&mut out, &cfg, &st, &v);
-        out.count(if tolerant { "states_tolerant_pass" } else { "states_strict_pass" }, st.states);
+        out.count(&format!("states_pcap{pcap}_{}", if tolerant { "tolerant" } else { "strict" }), st.states);
     }
     // vacuity guards: walk one fixed witness history per situation on the real store
-    let mut guard = Sys::new(true);
-    let witness = [Act::Add(0, 0), Act::NewExt(0, 1), Act::FailTransport(0, 3 | 4), Act::Conn(0, 2, 1, true), Act::Add(1, 0), Act::FailWrongPeer(1, 0, 0)];
+    let mut guard = Sys::new(true, 2);
+    let witness = [Act::Add(0, 0), Act::NewExt(0, 1), Act::FailTransport(0, 3 | 4), Act::Conn(0, 2, 1, true), Act::Add(1, 0), Act::FailWrongPeer(1, 0, 0), Act::InsertData(2), Act::Add(2, 0), Act::Add(2, 1), Act::Add(2, 2)];
     for w in &witness {
         let _ = guard.step(w);
     }
     out.count("witness_auto_removals", guard.auto_removals);
     out.count("witness_perm_survived", guard.perm_survived);
     out.count("witness_evictions", guard.evictions);
-    if guard.auto_removals == 0 || guard.perm_survived == 0 {
-        out.machinery("vacuity: witness history never exercised an automatic removal next to a surviving explicit address");
+    if guard.auto_removals == 0 || guard.perm_survived == 0 || guard.evictions == 0 {
+        out.machinery("vacuity: witness history never exercised an automatic removal next to a surviving explicit address / a capacity eviction");
     }
-    let ddepth = ctx.tier.pick(3, 3);
-    let cfg = json!({"caps": "record 2 / peer 2", "tolerant": false});
-    let (n, capped, v2) = bfs::dfs_all(|| Sys::new(false), ddepth, 3_000_000);
-    out.count("dfs_companion_sequences", n);
-    out.evaluations += n;
-    out.traces += n;
-    if capped {
-        out.caps.push(format!("dfs companion capped at {n} sequences"));
+    let ddepth = 3;
+    for pcap in [2usize, 3] {
+        let cfg = json!({"caps": format!("record 2 / peer {pcap}"), "tolerant": false, "pcap": pcap});
+        // the companion of the second configuration concentrates on one peer's record (the peer dimension is covered by the first)
+        let dd = if pcap == 2 { ddepth } else { ctx.tier.pick(2, 3) };
+        let (n, capped, v2) = bfs::dfs_all(|| Sys::new(false, pcap), dd, 3_000_000);
+        out.count("dfs_companion_sequences", n);
+        out.evaluations += n;
+        out.traces += n;
+        if capped {
+            out.caps.push(format!("dfs companion capped at {n} sequences"));
+        }
+        bfs::record(&mut out, &cfg, &Default::default(), &v2);
     }
-    bfs::record(&mut out, &cfg, &Default::default(), &v2);
-    out.notes.push(format!("bfs depth {depth} (strict and tolerant pass), dfs companion depth {ddepth}"));
+    out.notes.push(format!("bfs depth {depth} (peer_capacity 2 strict and tolerant, peer_capacity 3 strict), dfs companion depth {ddepth} / 2-3"));
     out
 }
